@@ -11,6 +11,7 @@
      LayeredConfigTree._set_with_metadata -> [set_data]      (frozen?, dict -> child tree / value -> child node, structure clash)
      LayeredConfigTree.freeze 326-334     -> [freeze]        (own flag, then every child, recursively)
      LayeredConfigTree.get/__getitem__    -> [tfind], [get]
+     LayeredConfigTree.__delitem__ 743-746 / __delattr__ 738-741 -> [delete_key] (NOT guarded by _frozen: finding F-AA)
    A rejected update may leave part of its data applied in the real object (keys before the offending one); the
    model returns no state in that case and the check never looks at a configuration after a rejection.        *)
 From Viv Require Import Common.
@@ -151,6 +152,14 @@ Fixpoint freeze (t : node) : node :=
                                match ch with [] => [] | (k, c) :: r => (k, freeze c) :: fr r end) ch)
   end.
 
+(* LayeredConfigTree.__delitem__ / __delattr__: `if name in self: del self._children[name]` - the frozen flag is not
+   consulted (finding F-AA); a missing key is a no-op *)
+Definition delete_key (t : node) (k : Z) : node :=
+  match t with
+  | Leaf _ _ => t
+  | Tree f ch => Tree f (filter (fun kc => negb (Z.eqb (fst kc) k)) ch)
+  end.
+
 (* walking a key path: tree[k1][k2]... *)
 Fixpoint tfind (t : node) (p : path) : option node :=
   match p with
@@ -185,10 +194,13 @@ Definition cerr_code (e : cerr) : Z :=
 (* ------------------------------------------------------------------------------------------------------------
    Correspondence stream `cfg`: a stand-alone LayeredConfigTree driven by a sequence of operations.
    Each operation carries the implementation's observation; the model must reproduce it.  After the first
-   rejected update the real object may be partially updated, so the harness stops the sequence there.      *)
+   rejected update the real object may be partially updated, so the harness stops the sequence there - except when
+   the tree the update is called on is itself frozen: that refusal precedes every effect (main.py 606-610) and the
+   sequence goes on with the configuration as it was.                                                        *)
 Inductive cop :=
   | CUpdate (at_ : path) (items : dict) (layer : option Z) (src : Z) (obs : Z)   (* 0 ok | cerr_code | 9 no tree at path *)
   | CSetItem (at_ : path) (k : Z) (v : data) (obs : Z)                            (* tree[k] = v : key must exist (5) *)
+  | CDel (at_ : path) (k : Z) (obs : Z)                                            (* del tree[k] / delattr: 0 | 9 no tree at path *)
   | CFreeze (at_ : path)
   | CGet (p : path) (obs : Z * Z)
   | CMeta (p : path) (obs : list (Z * (Z * Z))).
@@ -218,7 +230,8 @@ Fixpoint run_cops (layers : list Z) (t : node) (ops : list cop) : bool :=
       | Some (Tree f ch) =>
           match update layers (Tree f ch) items layer src with
           | COk t' => (obs =? 0) && run_cops layers (tput t at_ t') r
-          | CErr e => (obs =? cerr_code e)             (* sequence ends here *)
+          | CErr e => (obs =? cerr_code e) &&           (* sequence ends here unless the target itself is frozen *)
+                      (if f then run_cops layers t r else true)
           end
       | _ => (obs =? 9) && run_cops layers t r
       end
@@ -231,9 +244,14 @@ Fixpoint run_cops (layers : list Z) (t : node) (ops : list cop) : bool :=
           | Some _ =>
             match update layers (Tree f ch) [(k, v)] None 0 with
             | COk t' => (obs =? 0) && run_cops layers (tput t at_ t') r
-            | CErr e => (obs =? cerr_code e)
+            | CErr e => (obs =? cerr_code e) && (if f then run_cops layers t r else true)
             end
           end
+      | _ => (obs =? 9) && run_cops layers t r
+      end
+  | CDel at_ k obs :: r =>
+      match tfind t at_ with
+      | Some (Tree f ch) => (obs =? 0) && run_cops layers (tput t at_ (delete_key (Tree f ch) k)) r
       | _ => (obs =? 9) && run_cops layers t r
       end
   | CFreeze at_ :: r =>
